@@ -57,11 +57,64 @@ def Pred.test (p : Pred) (read : Read) (info : Info) : Except Err Bool :=
 
 /-! ## Paired-end modifiers -/
 
+/-- dnaio's `record_names_match(header1, header2)`: the ids (up to the first space or tab) must be equal, where a final `1`, `2` or
+    `3` on both is ignored (`/1`, `/2`, `.1`, `.2` … of old paired-end naming schemes) -/
+def recordId (name : Bytes) : Bytes := name.takeWhile (fun c => c != 32 && c != 9)
+def isMateDigit (c : UInt8) : Bool := c == 49 || c == 50 || c == 51
+def recordNamesMatch (n1 n2 : Bytes) : Bool :=
+  let a := recordId n1
+  let b := recordId n2
+  if a.length != b.length then false else
+  match a.getLast?, b.getLast? with
+  | some x, some y => if isMateDigit x && isMateDigit y then a.dropLast == b.dropLast else a == b
+  | _, _ => a == b
+
+/-- the per-read dictionary `PairedEndRenamer._rename` builds (`id` and `rn` are added per output name) -/
+structure RenameFields where
+  id : Bytes
+  comment : Bytes
+  header : Bytes
+  cutPrefix : Bytes
+  cutSuffix : Bytes
+  adapterName : Bytes
+  matchSequence : Bytes
+
+def renameFields (names : List String) (read : Read) (info : Info) : RenameFields :=
+  { id := (parseName read.name).1, comment := (parseName read.name).2, header := read.name,
+    cutPrefix := info.cutPrefix.getD [], cutSuffix := info.cutSuffix.getD [],
+    adapterName := lastAdapterName names info, matchSequence := (info.mts.getLast?.map AnyMatch.matchSequence).getD [] }
+
+/-- `self._template.format(id=…, rn=…, **own, r1=SimpleNamespace(**d[0]), r2=SimpleNamespace(**d[1]))`, one token:
+    plain placeholders take the fields of the read being named, `{rn}` is 1 or 2, `{r1.x}` / `{r2.x}` always take R1's / R2's field -/
+def renderPairedTok (rn : Nat) (own r1 r2 : RenameFields) : Tok → Except Err Bytes
+  | .lit s => .ok s
+  | .var "id" => .ok own.id
+  | .var "rn" => .ok (natToBytes rn)
+  | .var "comment" => .ok own.comment
+  | .var "header" => .ok own.header
+  | .var "cut_prefix" => .ok own.cutPrefix
+  | .var "cut_suffix" => .ok own.cutSuffix
+  | .var "adapter_name" => .ok own.adapterName
+  | .var "match_sequence" => .ok own.matchSequence
+  | .var "r1.comment" => .ok r1.comment
+  | .var "r1.header" => .ok r1.header
+  | .var "r1.cut_prefix" => .ok r1.cutPrefix
+  | .var "r1.cut_suffix" => .ok r1.cutSuffix
+  | .var "r1.adapter_name" => .ok r1.adapterName
+  | .var "r1.match_sequence" => .ok r1.matchSequence
+  | .var "r2.comment" => .ok r2.comment
+  | .var "r2.header" => .ok r2.header
+  | .var "r2.cut_prefix" => .ok r2.cutPrefix
+  | .var "r2.cut_suffix" => .ok r2.cutSuffix
+  | .var "r2.adapter_name" => .ok r2.adapterName
+  | .var "r2.match_sequence" => .ok r2.matchSequence
+  | .var _ => .error .key
+
 inductive PMod where
   | wrap (m1 m2 : Option SMod)
   | pairedRevcomp (c1 c2 : Option Cutter) (suffix first1 first2 : Bool)
   | pairAdapters (ads1 ads2 : List Matchable) (action : Action) (first1 first2 : Bool)
-  | pairedRename (tmpl1 tmpl2 : List Tok)     -- not modelled beyond token rendering with r1/r2 variables omitted
+  | pairedRename (tmpl1 tmpl2 : List Tok)     -- `PairedEndRenamer` (the CLI passes the same template twice)
 
 def namesOf (ads : List Matchable) : Names := ads.map Matchable.name
 
@@ -148,10 +201,16 @@ def applyP (ads1 ads2 : List Matchable) : PMod → Read × Read → Info × Info
       let i2 := if first2 then { i2 with original := { i2.original with seq := r2a.seq } } else i2
       pure ((o1, o2), ({ i1 with mts := i1.mts ++ [m1] }, { i2 with mts := i2.mts ++ [m2] }),
            [Event.withAdapter 0, Event.withAdapter 1, Event.matched 0 m1 false, Event.matched 1 m2 false])
-  | .pairedRename t1 t2, (r1, r2), (i1, i2) => do
-    let n1 ← t1.mapM (renderTok (namesOf ads1) r1 i1)
-    let n2 ← t2.mapM (renderTok (namesOf ads2) r2 i2)
-    pure (({ r1 with name := n1.flatten }, { r2 with name := n2.flatten }), (i1, i2), [])
+  | .pairedRename t1 t2, (r1, r2), (i1, i2) =>
+    if !recordNamesMatch r1.name r2.name then .error .value else     -- "Input read IDs not identical"
+    let d1 := renameFields (namesOf ads1) r1 i1
+    let d2 := renameFields (namesOf ads2) r2 i2
+    match t1.mapM (renderPairedTok 1 d1 d1 d2), t2.mapM (renderPairedTok 2 d2 d1 d2) with
+    | .ok n1, .ok n2 =>
+      if !recordNamesMatch n1.flatten n2.flatten then .error .template   -- "After renaming R1 and R2, their IDs are no longer identical"
+      else .ok (({ r1 with name := n1.flatten }, { r2 with name := n2.flatten }), (i1, i2), [])
+    | .error e, _ => .error e
+    | _, .error e => .error e
 
 /-! ## Steps (`steps.py`) -/
 
